@@ -38,6 +38,12 @@ def searchsorted_contract():
             ForAll([a_, b_], Implies(And(0 <= a_, a_ < G, SS(a_) <= b_, b_ < V), XV(b_) > XG(a_)), patterns=[MultiPattern(SS(a_), XV(b_))])]
 
 
+def searchsorted_left_contract():
+    return [ForAll([a_], Implies(And(0 <= a_, a_ < G), And(0 <= SS(a_), SS(a_) <= V)), patterns=[SS(a_)]),
+            ForAll([a_, b_], Implies(And(0 <= a_, a_ < G, 0 <= b_, b_ < SS(a_)), XV(b_) < XG(a_)), patterns=[MultiPattern(SS(a_), XV(b_))]),
+            ForAll([a_, b_], Implies(And(0 <= a_, a_ < G, SS(a_) <= b_, b_ < V), XV(b_) >= XG(a_)), patterns=[MultiPattern(SS(a_), XV(b_))])]
+
+
 def index_post(idx):
     i = GI
     return [("index_in_range", Implies(in_range((G,), (i,)), And(0 <= idx(i), idx(i) <= V - 2))),
@@ -56,11 +62,12 @@ class InterpolationIndices(NdContract):
 
     def on_call(self, eng, st, node, name, recv, args, kwargs):
         if name == "numpy.searchsorted":
-            ok = len(args) >= 2 and args[0] is st.env["x_values"] and args[1] is st.env["x_grid"] and kwargs.get("side") == "right"
-            eng.oblige(st, "searchsorted_right_of_the_grid_in_the_values", BoolVal(bool(ok)), "wiring", node)
+            side = kwargs.get("side", "left")
+            ok = len(args) >= 2 and args[0] is st.env["x_values"] and args[1] is st.env["x_grid"] and side in ("left", "right")
+            eng.oblige(st, "searchsorted_of_the_grid_in_the_values", BoolVal(bool(ok)), "wiring", node)
             if not ok:
                 raise Unsupported("searchsorted arguments")
-            st.assume(*searchsorted_contract())
+            st.assume(*(searchsorted_contract() if side == "right" else searchsorted_left_contract()))
             # seed the E-matching with the terms the case analysis needs (A.1): neighbours of the generic index
             return Nd("searchsorted", (G,), "ndarray", "ERASED", cell=lambda i: SS(i))
         return super().on_call(eng, st, node, name, recv, args, kwargs)
